@@ -24,6 +24,8 @@ def run_case(case, ctx):
         ctx.label("until_all_ready-called")
         if case.get("begin_delay"):
             ctx.label("until_all_ready-with-slow-begin")
+    if (case.get("ready_mid") or case.get("ready_thread")) and res.ready_checks and "worker-replaced" in labs:
+        ctx.label("until_all_ready-during-a-call-with-replacements")
     ctx.extra["distinct_key"] = case_hash({k: v for k, v in case.items() if k != "sched"}) + res.sched.signature()
     if labs & {"worker-replaced", "quota"} or "until_all_ready-with-slow-begin" in ctx.labels:
         ctx.nontrivial = True
@@ -53,14 +55,16 @@ SMALL = [
     {"kind": "pool", "pool": "factory", "workers": 2, "quota": 1, "wq": 1, "rq": None, "calls": [_c(2)], "begin_delay": 10, "ready_at": 0},
     {"kind": "pool", "pool": "factory", "workers": 1, "quota": 2, "wq": "1.0", "rq": None, "calls": [_c(2), _c(1)], "ready_at": 1},
     {"kind": "pool", "pool": "functor", "workers": 2, "quota": None, "wq": "1.0", "rq": None, "calls": [_c(1)], "begin_delay": 30, "ready_at": 0},
+    {"kind": "pool", "pool": "factory", "workers": 1, "quota": 1, "wq": "1.0", "rq": None, "calls": [_c(2)], "repl_begin_delay": 10, "ready_mid": [0, 1],
+     "ready_thread": {"start": 10, "gap": 2, "reps": 6}},
 ]
 
 
 def enumerations(tier):
     b = 2 if tier == "thorough" else 1
-    parts = [("pool-level-all-schedules-<=1-deviations-3-small-configs", PC.sweep(SMALL, 1), True)]
+    parts = [("pool-level-all-schedules-<=1-deviations-4-small-configs", PC.sweep(SMALL, 1), True)]
     if b == 2:
-        parts.append(("pool-level-schedules-<=2-deviations-3-small-configs-second-deviation-at-every-3rd-step", PC.sweep(SMALL, 2, thin=3), False))
+        parts.append(("pool-level-schedules-<=2-deviations-4-small-configs-second-deviation-at-every-3rd-step", PC.sweep(SMALL, 2, thin=3), False))
     return parts
 
 
